@@ -852,4 +852,74 @@ example : roundTrip readAs ⟨55, "v", "in", ["LocalRemoved:FailRelay", "LocalRe
     [("LocalRemoved:Fulfill", some 7), ("LocalRemoved:FailMalformed", none), ("LocalRemoved:Fulfill", some 9)] = none := by decide +kernel
 end ChanSideVecs
 
+/-! ## the well-formedness hypotheses of the forget-table theorems are invariants: reachable states need no side condition
+
+  `Reach` (Model/ChanForget.lean): a fresh channel of either role, an update received from the peer, our own update_fee (funder
+  only), the peer's commitment_signed, a disconnection, a write + read.  `reach_wf`: every reachable state satisfies FeeWf and AnnWf;
+  hence `written_state_is_forgotten_state_reachable` / `retransmission_restores_reachable` hold without hypotheses.  (`commitSigned`
+  and `sendFee` are hand-mirrored transitions: they only widen the set of states the theorems are known to cover.) -/
+section ChanReach
+open Ldk.ChanForget Ldk.ChanForget.Gen
+
+theorem reach_wf (c : Chan) (h : Reach c) : FeeWf c ∧ AnnWf c := by
+  induction h with
+  | init ob => exact ⟨by simp [FeeWf], ⟨[], 0, Nat.le_refl _, by simp, by simp⟩⟩
+  | @recv c c' m _ hr ih =>
+    refine ⟨(feeWf_preserved c c' m ih.1 hr).1, ?_⟩
+    cases m with
+    | add id => exact (annWf_preserved c c' id ih.2 hr).1
+    | fee r =>
+      simp only [ChanForget.recv] at hr
+      split at hr
+      · simp at hr
+      · simp only [Option.some.injEq] at hr; subst hr; exact ih.2
+  | @sendFee c r _ hob ih =>
+    refine ⟨by simp [FeeWf, hob], ?_⟩
+    exact ih.2
+  | @commit c _ ih =>
+    constructor
+    · have h1 := ih.1
+      unfold FeeWf at h1 ⊢
+      simp only [commitSigned]
+      cases hf : c.fee with
+      | none => simp
+      | some p => obtain ⟨r, s⟩ := p; rw [hf] at h1; cases s <;> simp_all
+    · refine ⟨(commitSigned c).inb, 0, Nat.zero_le _, ?_, by simp⟩
+      intro x hx
+      simp only [commitSigned, List.mem_map] at hx
+      obtain ⟨y, _, rfl⟩ := hx
+      by_cases hy : y.2 = .remoteAnnounced <;> simp [hy]
+  | @disconnect c _ ih =>
+    refine ⟨?_, ?_⟩
+    · have := ih.1; unfold FeeWf at this ⊢; simp only [forget]
+      cases hf : c.fee with
+      | none => simp [forgetFee]
+      | some p => obtain ⟨r, s⟩ := p; rw [hf] at this; cases s <;> simp_all [forgetFee, mFeeDrop]
+    · refine ⟨(forget c).inb, 0, Nat.zero_le _, ?_, by simp⟩
+      intro x hx; simp only [forget] at hx; exact (keep_iff x.2).mp (List.mem_filter.mp hx).2
+  | @reload c c' _ hr ih =>
+    rw [written_state_is_forgotten_state c ih.1] at hr
+    simp only [Option.some.injEq] at hr; subst hr
+    refine ⟨?_, ?_⟩
+    · have := ih.1; unfold FeeWf at this ⊢; simp only [forget]
+      cases hf : c.fee with
+      | none => simp [forgetFee]
+      | some p => obtain ⟨r, s⟩ := p; rw [hf] at this; cases s <;> simp_all [forgetFee, mFeeDrop]
+    · refine ⟨(forget c).inb, 0, Nat.zero_le _, ?_, by simp⟩
+      intro x hx; simp only [forget] at hx; exact (keep_iff x.2).mp (List.mem_filter.mp hx).2
+
+/-- for every REACHABLE channel state (no side condition left): reading back what the writer writes gives the in-memory
+    disconnect state, and the peer's retransmission restores the state the writer saw -/
+theorem written_state_is_forgotten_state_reachable (c : Chan) (h : Reach c) :
+    readChan c.outbound (writeChan c) = some (forget c) :=
+  written_state_is_forgotten_state c (reach_wf c h).1
+
+theorem retransmission_restores_reachable (c : Chan) (h : Reach c) :
+    (readChan c.outbound (writeChan c)).bind (fun c' => recvAll c' (retransmit c)) =
+      some { c with outb := c.outb.map (fun h => (h.1, mOutReset h.2)) } :=
+  retransmission_restores c (reach_wf c h).1 (reach_wf c h).2
+example : Reach ⟨false, [(0, .awaitingRemoteRevokeToAnnounce), (1, .remoteAnnounced)], [], some (500, .remoteAnnounced), none, [], 0, 2⟩ :=
+  .recv (.fee 500) (.recv (.add 1) (.commit (.recv (.add 0) (.init false) rfl)) rfl) rfl
+end ChanReach
+
 end Ldk.C12
